@@ -461,6 +461,107 @@ def gen_sync_scenario(seed: int, case_no: int) -> dict:
             "seed": seed, "case_no": case_no, "T": T, "epoch": epoch}
 
 
+def gen_event_sync_scenario(seed: int, case_no: int) -> dict:
+    """Template family for CUDA-event synchronisation (cudaEventRecord / cudaEventSynchronize / cudaStreamWaitEvent with their
+    'Event Sync' / 'Stream Wait Event' records), one host thread, 1-3 streams.  A round = launch kA on stream S1; record an event on S1;
+    then one of: (a) cudaEventSynchronize: the call returns after kA has ended; (b) cudaStreamWaitEvent on another stream S2 followed
+    by a launch of kB on S2, kB starting after kA has ended; (c) nothing waits on the event.  Rounds follow each other in time."""
+    rng = random.Random(seed * 3_000_017 + case_no)
+    host_pid, gpu_pid = 1, 0
+    streams = rng.sample([7, 13, 20, 24], rng.randint(2, 3))
+    ext = [1]
+    corr = [100]
+    evs = []
+
+    def host(cat, name, ts, dur, **args):
+        args.setdefault("External id", ext[0])
+        ext[0] += 1
+        e = {"ph": "X", "cat": cat, "name": name, "pid": host_pid, "tid": 1, "ts": ts, "dur": dur, "args": args}
+        evs.append(e)
+        return e
+
+    def dev(cat, name, tid, ts, dur, **args):
+        e = {"ph": "X", "cat": cat, "name": name, "pid": gpu_pid, "tid": tid, "ts": ts, "dur": dur, "args": args}
+        evs.append(e)
+        return e
+
+    t = rng.randint(0, 3)
+    host("cpu_op", "aten::zeros", t, rng.randint(1, 3))
+    t += 4
+    free_at = {s_: 0 for s_ in streams}
+    kinds = []
+    for _ in range(rng.randint(1, 3)):
+        s1 = rng.choice(streams)
+        # operator launching kA
+        op_start = t
+        l = t + 1
+        ldur = rng.randint(1, 3)
+        c = corr[0]; corr[0] += 1
+        host("cuda_runtime", "cudaLaunchKernel", l, ldur, correlation=c)
+        kas = max(l + rng.randint(0, 4), free_at[s1])
+        kad = rng.randint(2, 25)
+        dev("kernel", rng.choice(COMPUTE_KERNELS), s1, kas, kad, stream=s1, device=gpu_pid, correlation=c)
+        free_at[s1] = kas + kad
+        t = l + ldur + rng.randint(0, 2)
+        host("cpu_op", rng.choice(CPU_OPS), op_start, t - op_start)
+        t += rng.randint(0, 2)
+        # the event record
+        r = corr[0]; corr[0] += 1
+        host("cuda_runtime", "cudaEventRecord", t, rng.randint(1, 2), correlation=r)
+        t += 2 + rng.randint(0, 2)
+        kind = rng.choice(["event_sync", "stream_wait", "stream_wait", "none"])
+        kinds.append(kind)
+        if kind == "event_sync":
+            w = corr[0]; corr[0] += 1
+            ret = max(t + 1, kas + kad + rng.randint(0, 3))
+            call = host("cuda_runtime", "cudaEventSynchronize", t, ret - t, correlation=w)
+            ra = rng.randint(t, max(t, kas))
+            dev("cuda_sync", "Event Sync", -1, ra, max(0, kas + kad - ra), cuda_sync_kind="Event Sync", wait_on_stream=s1, wait_on_cuda_event_record_corr_id=r,
+                wait_on_cuda_event_id=rng.randint(1, 20), stream=-1, correlation=w, **{"External id": call["args"]["External id"]})
+            t = ret + rng.randint(0, 2)
+        elif kind == "stream_wait":
+            s2 = rng.choice([x for x in streams if x != s1])
+            w = corr[0]; corr[0] += 1
+            call = host("cuda_runtime", "cudaStreamWaitEvent", t, rng.randint(1, 2), correlation=w)
+            dev("cuda_sync", "Stream Wait Event", s2, t + 1, rng.randint(0, 2), cuda_sync_kind="Stream Wait Event", wait_on_stream=s1,
+                wait_on_cuda_event_record_corr_id=r, wait_on_cuda_event_id=rng.randint(1, 20), stream=s2, correlation=w,
+                **{"External id": call["args"]["External id"]})
+            t += 3 + rng.randint(0, 2)
+            # next launch on s2: kB waits for kA
+            op_start = t
+            l = t + 1
+            ldur = rng.randint(1, 3)
+            c2 = corr[0]; corr[0] += 1
+            host("cuda_runtime", "cudaLaunchKernel", l, ldur, correlation=c2)
+            kbs = max(l + rng.randint(0, 3), free_at[s2], kas + kad + (0 if rng.random() < 0.5 else rng.randint(0, 3)))
+            kbd = rng.randint(1, 20)
+            dev("kernel", rng.choice(COMPUTE_KERNELS + COMM_KERNELS), s2, kbs, kbd, stream=s2, device=gpu_pid, correlation=c2)
+            free_at[s2] = kbs + kbd
+            t = l + ldur + rng.randint(0, 2)
+            host("cpu_op", rng.choice(CPU_OPS), op_start, t - op_start)
+            t += rng.randint(0, 2)
+    # a closing device synchronisation in most cases
+    if rng.random() < 0.7:
+        w = corr[0]; corr[0] += 1
+        done = max(free_at.values())
+        ret = max(t + 1, done + rng.randint(0, 2))
+        call = host("cuda_runtime", "cudaDeviceSynchronize", t, ret - t, correlation=w)
+        ra = rng.randint(t, max(t, min(done, ret)))
+        dev("cuda_sync", "Context Sync", -1, ra, max(0, min(done, ret) - ra), cuda_sync_kind="Context Sync", stream=-1, correlation=w,
+            **{"External id": call["args"]["External id"]})
+        t = ret + 1
+    host("cpu_op", rng.choice(CPU_OPS), t, rng.randint(2, 30))
+    epoch = rng.choice([0, 1000000])
+    first, rest = evs[0], evs[1:]
+    rng.shuffle(rest)
+    out = [first] + rest
+    for e in out:
+        e["ts"] += epoch
+    T = max(e["ts"] + e["dur"] for e in out) - epoch
+    return {"ranks": {0: {"events": out, "fmt": "gz" if rng.random() < 0.5 else "json", "indent": False}}, "profile": "event_sync_scenario",
+            "seed": seed, "case_no": case_no, "T": T, "epoch": epoch, "kinds": kinds}
+
+
 def write_case(case: dict, d: str) -> Dict[int, str]:
     """Write the rank files of a case into directory d; returns rank -> path."""
     os.makedirs(d, exist_ok=True)
